@@ -110,12 +110,8 @@ func runStress(sc StressCase, o rec, opts runOpts) (v pbt.Verdict, hist string) 
 		}
 	}
 	shares := c.OpType == "query"
+	rg := acquireRig()
 	before := goroutineSet()
-	rg := newRig(c.Layer, c.OpType)
-	defer rg.stop()
-	for _, sp := range c.Parts {
-		rg.plan(c.Keys[sp.Key].Op, sp.Alt)
-	}
 	var log []string
 	logf := func(f string, a ...any) { log = append(log, fmt.Sprintf(f, a...)) }
 	history := func() string {
@@ -172,8 +168,8 @@ func runStress(sc StressCase, o rec, opts runOpts) (v pbt.Verdict, hist string) 
 				}()
 				<-start
 				spinFn(sp.Spin)()
-				rc := rg.request(p.ctx, p.key, sp.Alt, p.w)
-				info, err := rg.resolver.ArenaResolveGraphQLResponse(rc, rg.plan(k.Op, sp.Alt), p.wr)
+				rc := rg.request(p.ctx, c.Layer, c.OpType, p.key, sp.Alt, p.w)
+				info, err := rg.resolver.ArenaResolveGraphQLResponse(rc, rg.plan(k.Op, sp.Alt, c.OpType), p.wr)
 				p.out.Returned = true
 				p.out.err = err
 				if err != nil {
@@ -230,6 +226,7 @@ func runStress(sc StressCase, o rec, opts runOpts) (v pbt.Verdict, hist string) 
 				p.cancel()
 			}
 			current.Store(nil)
+			discardRig(rg)
 			if len(wedged) > 0 {
 				return pbt.Bad("participant wedged (same blocking call in two samples after %v):\n%s\n%s", opts.watchdog, strings.Join(wedged, "\n"), history()), history()
 			}
@@ -271,7 +268,6 @@ func runStress(sc StressCase, o rec, opts runOpts) (v pbt.Verdict, hist string) 
 	if dedupSeen {
 		o.label("stress:inbound-deduplicated")
 	}
-	rg.stop()
 	if len(all) == 0 {
 		if desc, stable := leaked(before, 2*time.Second); len(desc) > 0 {
 			if stable {
@@ -288,6 +284,7 @@ func runStress(sc StressCase, o rec, opts runOpts) (v pbt.Verdict, hist string) 
 	if len(all) == 0 {
 		return pbt.OK, history()
 	}
+	discardRig(rg)
 	finding := all[0].finding
 	var msgs []string
 	for _, p := range all {
